@@ -62,6 +62,11 @@ class FakeServer:
 
     # -- commands (synchronous, atomic) -------------------------------------------------------
     def cmd(self, op: str, *a: Any, **kw: Any) -> Any:
+        # key names may be given as bytes (e.g. what SCAN returned): the server does not distinguish
+        if op != "delete" and a and isinstance(a[0], bytes):
+            a = (a[0].decode(),) + a[1:]
+        if op == "delete":
+            a = tuple(x.decode() if isinstance(x, bytes) else x for x in a)
         r = getattr(self, "c_" + op)(*a, **kw)
         self._clean()
         return r
